@@ -286,7 +286,114 @@ func genWindow(rt *rapid.T) (int64, int64) {
 	return from, from + windowWidthS
 }
 
+// ---- the "portion spread" class ----------------------------------------------------------
+//
+// Many matching traces, a small limit and >= 3 portions, so that the per-portion processor
+// has to carry winners from portion to portion and replace them by newer traces of later
+// portions. Each trace lives in its own time band (all its spans inside the window, bands
+// of different traces disjoint, order of the bands a random permutation, so recency is
+// independent of the hash partition). With disjoint bands the processor's narrowing of
+// From to the oldest winner's start can neither cut a span of a newer trace nor admit a
+// span outside the window, so the result has to be exactly the `limit` most recent
+// matching traces over all portions (the known finding C11-portion-narrows-window does
+// not apply; see portionMoveMatters in search.go).
+
+var (
+	spreadTerms = []refeval.TQTerm{
+		{Label: ".a", Op: "=", Val: refeval.TQValue{Kind: "str", Str: "x"}},
+		{Label: "span.a", Op: "!=", Val: refeval.TQValue{Kind: "str", Str: "y"}},
+		{Label: ".b", Op: ">=", Val: refeval.TQValue{Kind: "num", Num: "1"}},
+		{Label: "resource.b", Op: "<", Val: refeval.TQValue{Kind: "num", Num: "10"}},
+		{Label: "name", Op: "=~", Val: refeval.TQValue{Kind: "str", Str: "op"}},
+		{Label: "duration", Op: ">=", Val: refeval.TQValue{Kind: "dur", Num: "1", Unit: "ms"}},
+		{Label: ".service.name", Op: "=", Val: refeval.TQValue{Kind: "str", Str: "svcA"}},
+	}
+	spreadAggs = []refeval.TQAgg{
+		{Fn: "count", Cmp: ">=", Num: "1"},
+		{Fn: "count", Cmp: "<", Num: "3"},
+		{Fn: "max", Attr: ".b", Cmp: ">=", Num: "1"},
+		{Fn: "min", Attr: "duration", Cmp: ">=", Num: "1", Unit: "ms"},
+	}
+)
+
+func genSpreadSelector(rt *rapid.T) refeval.TQSelector {
+	n := pick(rt, []int{1, 1, 2, 2, 3}, "spreadHeads")
+	e := &refeval.TQExpr{}
+	op := pick(rt, []string{"||", "||", "&&"}, "spreadOp")
+	for i := 0; i < n; i++ {
+		if i > 0 {
+			e.Ops = append(e.Ops, op)
+		}
+		t := pick(rt, spreadTerms, "spreadTerm")
+		e.Heads = append(e.Heads, refeval.TQHead{Term: &t})
+	}
+	s := refeval.TQSelector{Expr: e}
+	if chance(rt, 30, "spreadAgg") {
+		a := pick(rt, spreadAggs, "spreadAggKind")
+		s.Agg = &a
+	}
+	return s
+}
+
+func genSpreadDB(rt *rapid.T, from int64) refeval.TQDB {
+	nt := rapid.IntRange(6, 10).Draw(rt, "spreadTraces")
+	slots := make([]int, nt)
+	for i := range slots {
+		slots[i] = i
+	}
+	slots = rapid.Permutation(slots).Draw(rt, "bands")
+	width := int64(windowWidthS) * 1_000_000_000 / int64(nt)
+	db := refeval.TQDB{}
+	for ti := 0; ti < nt; ti++ {
+		salt := rapid.Uint16().Draw(rt, "traceSalt")
+		tr := refeval.TQTrace{ID: fmt.Sprintf("%016x%012x%04x", uint64(ti+1)*0x9E3779B97F4A7C15, ti+1, salt)}
+		base := from + int64(slots[ti])*width
+		ns := rapid.IntRange(1, 3).Draw(rt, "spreadSpans")
+		for si := 0; si < ns; si++ {
+			sp := refeval.TQSpan{
+				ID:      fmt.Sprintf("%08x%06x%02x", ti+1, si+1, 0),
+				TS:      base + int64(spread(rt, "bandOffset")%uint64(width/2)),
+				Dur:     pick(rt, []int64{0, 1_000_000, 2_000_000, 1_500_000_000}, "dur"),
+				Name:    pick(rt, []string{"op1", "op2", "x"}, "spanName"),
+				Service: pick(rt, []string{"svcA", "svcA", "svcB"}, "service"),
+			}
+			if chance(rt, 85, "hasA") {
+				sp.Attrs = append(sp.Attrs, refeval.TQKV{K: "a", V: pick(rt, []string{"x", "x", "x", "y"}, "aVal")})
+			}
+			if chance(rt, 75, "hasB") {
+				sp.Attrs = append(sp.Attrs, refeval.TQKV{K: "b", V: pick(rt, []string{"1", "2", "3", "0", "abc"}, "bVal")})
+			}
+			tr.Spans = append(tr.Spans, sp)
+		}
+		db.Traces = append(db.Traces, tr)
+	}
+	return db
+}
+
+func genSpreadCase(rt *rapid.T) searchCase {
+	c := searchCase{}
+	if chance(rt, 70, "spreadQuery") {
+		c.Q = refeval.TQScript{Sels: []refeval.TQSelector{genSpreadSelector(rt)}}
+		if chance(rt, 25, "spreadChain") {
+			c.Q.Sels = append(c.Q.Sels, genSpreadSelector(rt))
+			c.Q.Ops = []string{"||"}
+		}
+	} else {
+		c.Q = refeval.TQScript{Sels: []refeval.TQSelector{genSelector(rt, false)}}
+	}
+	c.Text = c.Q.String()
+	c.From, c.To = genWindow(rt)
+	c.DB = genSpreadDB(rt, c.From*1e9)
+	c.Limit = pick(rt, []int{1, 2, 2, 3}, "limit")
+	portions := pick(rt, []int64{3, 3, 4, 5}, "portions")
+	c.Complexity = (portions-1)*10_000_000 + 1 + int64(spread(rt, "complexityJitter")%9_000_000)
+	return c
+}
+
 func genSearchCase(rt *rapid.T) searchCase {
+	if chance(rt, 25, "portionSpread") {
+		return genSpreadCase(rt)
+	}
 	c := searchCase{Q: genScript(rt)}
 	c.Text = c.Q.String()
 	c.From, c.To = genWindow(rt)
@@ -317,3 +424,19 @@ func GenDB(rt *rapid.T, from, to int64) refeval.TQDB { return genDB(rt, from, to
 
 // GenWindow draws a search window (seconds).
 func GenWindow(rt *rapid.T) (int64, int64) { return genWindow(rt) }
+
+// SpreadCase is the exported view of a "portion spread" case.
+type SpreadCase struct {
+	Q          refeval.TQScript
+	DB         refeval.TQDB
+	FromS, ToS int64
+	Limit      int
+	Complexity int64
+}
+
+// GenSpread draws a case of the "portion spread" class (>= 3 portions, small limit, many
+// matching traces in disjoint time bands).
+func GenSpread(rt *rapid.T) SpreadCase {
+	c := genSpreadCase(rt)
+	return SpreadCase{Q: c.Q, DB: c.DB, FromS: c.From, ToS: c.To, Limit: c.Limit, Complexity: c.Complexity}
+}
